@@ -248,6 +248,9 @@ func (n *Node) Exec(req ExecReq, commitOnSuccess bool) *Transcript {
 			t.Obs = append(t.Obs, canonObs(e))
 			continue
 		}
+		if strings.HasSuffix(id, ".World.Mark") {
+			continue
+		}
 		t.Events = append(t.Events, h.EventsJSON[i])
 		t.EventIDs = append(t.EventIDs, id)
 		t.EventVals = append(t.EventVals, e)
@@ -359,6 +362,27 @@ func (t *Transcript) CarriesInjected() bool {
 		return true
 	}
 	return strings.Contains(t.Err.Error(), InjectedPanicString)
+}
+
+// RegionAt names the marked region (World.mark("X-BEGIN") ... World.mark("X-END")) that contains trace index seq, or "".
+func (t *Transcript) RegionAt(seq int) string {
+	region := ""
+	for i, c := range t.Trace {
+		if i >= seq {
+			break
+		}
+		if c.Kind == "EmitEvent" {
+			if k := strings.Index(c.Arg, ".World.Mark:"); k >= 0 {
+				name := strings.Trim(c.Arg[k+len(".World.Mark:"):], "\"")
+				if strings.HasSuffix(name, "-BEGIN") {
+					region = strings.TrimSuffix(name, "-BEGIN")
+				} else if strings.HasSuffix(name, "-END") {
+					region = ""
+				}
+			}
+		}
+	}
+	return region
 }
 
 // WritesDigest: ordered register writes.
